@@ -353,6 +353,13 @@ def _fresh_return(r, fn, par, depth=0):
     if isinstance(p, ast.If) and isinstance(p.test, ast.UnaryOp) and isinstance(p.test.op, ast.Not) and r in p.body \
             and isinstance(r.value, (ast.Constant, ast.Name)):
         return True
+    # the same decided on paths: every path ending in this return has established that a collection is empty
+    if isinstance(r.value, (ast.Constant, ast.Name)) and isinstance(fn, (ast.FunctionDef, ast.AsyncFunctionDef)):
+        from sa import paths as P_
+
+        pths = [q for q in P_.enum_paths(fn.body) if q.end_node is r]
+        if pths and all(any(a[0] == "truthy" and a[2] is False for a in P_.facts(q)) for q in pths):
+            return True
     return False
 
 
